@@ -27,6 +27,7 @@ vars == <<pick, scen, st, p, i, rxMode, done, lastBranch>>
 
 Picks ==
   CASE Family = "flow"  -> FlowPicks(N, Phases, MaxChain, Engines, Slice, Slices)
+    [] Family = "markers" -> MarkerPicks(N, Phases, Slice, Slices)
     [] Family = "select"  -> SelectPicks(N, Phases, Slice, Slices)
     [] Family = "operate" -> OperatePicks(N, Phases, Slice, Slices)
     [] Family = "chain"   -> ChainPicks(N, MaxChain, Phases, Slice, Slices)
@@ -36,6 +37,7 @@ Picks ==
     [] Family = "pair"    -> PairPicks(N, Slice, Slices)
 ScenOf(pk) ==
   CASE Family = "flow"    -> FlowScen(pk)
+    [] Family = "markers" -> MarkerScen(pk)
     [] Family = "select"  -> SelectScen(pk)
     [] Family = "operate" -> OperateScen(pk)
     [] Family = "chain"   -> ChainScen(pk)
@@ -61,7 +63,7 @@ Init ==
   /\ lastBranch = "init"
 
 \* families whose requests never hold two data under one variable need no order exploration
-Orders == IF Family \in {"flow"} THEN {[k \in 1..Len(scen.req) |-> k]} ELSE Permutations(1..Len(scen.req))
+Orders == IF Family \in {"flow", "markers"} THEN {[k \in 1..Len(scen.req) |-> k]} ELSE Permutations(1..Len(scen.req))
 \* scen is a function of pick: leave it out of the fingerprint
 View == <<pick, st, p, i, rxMode, done>>
 
@@ -94,7 +96,9 @@ PhaseEnd ==
   /\ \/ st.engine = "Off"
      \/ (st.intr # None /\ p # 5)
      \/ NextIdx(i, p) > Len(Rules)
-  /\ st' = IF st.engine = "Off" \/ (st.intr # None /\ p # 5) THEN st ELSE EndPhase(st, p)
+  \* a phase that is not entered (engine off, or interrupted before its first rule) changes nothing;
+  \* a phase that was entered ends with the resets even when it is left through the interruption break
+  /\ st' = IF st.engine = "Off" \/ (st.intr # None /\ p # 5 /\ i = 1) THEN st ELSE EndPhase(st, p)
   /\ IF p = 5 THEN done' = TRUE /\ p' = p /\ i' = i
               ELSE done' = FALSE /\ p' = p + 1 /\ i' = 1
   /\ lastBranch' = "phaseEnd"
